@@ -35,7 +35,10 @@ ASSUMPTIONS = ["one stack (one lock directory) per command; locking enabled (hoo
                "default '__UPS_DB__' or an absolute path; with None or --nolocks takeLocks makes no call at all, checked separately)",
                "a process takes the lock once; signals (the SIGINT/SIGTERM handler takeLocks installs) are not delivered",
                "stack directory writable (the EACCES branch of takeLocks is not exercised)",
-               "related = one process started with the other's pid in EUPS_LOCK_PID; two children of one holder are unrelated"]
+               "related = one process started with the other's pid in EUPS_LOCK_PID; two children of one holder are unrelated",
+               "EUPS_LOCK_PID names a process that itself started without the variable (takeLocks never overwrites it, so every "
+               "descendant inherits the pid of the first locker); the theorems hold for arbitrary maps, the race classification "
+               "(D12a/b/c explain every violation) was explored for such flat maps only"]
 
 CORPUS = os.path.join(common.VERIF, "corpus", "C09")
 WORKERS = 6
@@ -50,9 +53,19 @@ def P(kind, lp=None, tries=0, explicit=True):
 def run_impl(case):
     try:
         return G.run_schedule(case)
+    except G.GateTimeout:
+        pass
+    # a locker was silent for STEP_TIMEOUT seconds: a loaded machine, or a lock.py that no longer terminates —
+    # once more with a much longer patience before calling it the latter
+    old = G.STEP_TIMEOUT
+    G.STEP_TIMEOUT = 120.0
+    try:
+        return G.run_schedule(case)
     except G.GateTimeout as e:
         return {"executed": list(case["sched"]), "trace": [], "outcomes": ["timeout"], "mid": [], "residue": [],
                 "violations": [], "error": str(e)}
+    finally:
+        G.STEP_TIMEOUT = old
 
 
 def impl_view(r):
@@ -316,8 +329,9 @@ def random_case(rng, n):
     for i in range(n):
         k = "E" if rng.random() < 0.5 else "S"
         lp = None
-        if i > 0 and rng.random() < 0.25:
-            lp = rng.randrange(i)
+        roots = [j for j in range(i) if procs[j]["lp"] is None]
+        if roots and rng.random() < 0.25:
+            lp = rng.choice(roots)          # EUPS_LOCK_PID always names a process that started without it (never overwritten)
         elif rng.random() < 0.04:
             lp = n + 1                      # stale EUPS_LOCK_PID: the ancestor is not among the lockers
         procs.append(P(k, lp=lp, tries=rng.choice([0, 0, 0, 1, 2]), explicit=rng.random() < 0.85))
@@ -341,7 +355,8 @@ def path_case(rng):
     procs = []
     for i in range(n):
         k = "E" if rng.random() < 0.55 else "S"
-        lp = rng.randrange(i) if (i > 0 and rng.random() < 0.2) else None
+        roots = [j for j in range(i) if procs[j]["lp"] is None]
+        lp = rng.choice(roots) if (roots and rng.random() < 0.2) else None
         path = rng.sample(range(nd), rng.randint(1, nd))
         if rng.random() < 0.5:
             path.sort()
@@ -373,7 +388,8 @@ def phase_case(rng):
     procs = []
     for i in range(n):
         k = "E" if rng.random() < 0.45 else "S"
-        lp = rng.randrange(i) if (i > 0 and rng.random() < 0.35) else None
+        roots = [j for j in range(i) if procs[j]["lp"] is None]
+        lp = rng.choice(roots) if (roots and rng.random() < 0.35) else None
         procs.append(P(k, lp=lp, tries=rng.choice([0, 0, 1]), explicit=rng.random() < 0.85))
     phases, started, released = [], set(), set()
     for _ in range(rng.randint(n, 2 * n)):
@@ -462,46 +478,86 @@ def run_case(case):
 
 def run_phase(case):
     """Phase-atomic order: run each phase to its end on the real processes; the schedule is whatever that takes."""
-    try:
-        return G.run_schedule(dict(case, sched=[], drain=True), phases=case["phases"])
-    except G.GateTimeout as e:
-        return {"executed": [], "trace": [], "outcomes": ["timeout"], "mid": [], "residue": [], "violations": [], "error": str(e)}
+    for patience in (G.STEP_TIMEOUT, 120.0):
+        old = G.STEP_TIMEOUT
+        G.STEP_TIMEOUT = patience
+        try:
+            return G.run_schedule(dict(case, sched=[], drain=True), phases=case["phases"])
+        except G.GateTimeout as e:
+            err = str(e)
+        finally:
+            G.STEP_TIMEOUT = old
+    return {"executed": [], "trace": [], "outcomes": ["timeout"], "mid": [], "residue": [], "violations": [], "error": err}
 
 
-def classification_support(ctx, nmax):
-    """Exploration support (not proof): on the model, every reachable state violating Mutex is explained by one of the
-    three race monitors, and no quiescent state has residue — exhaustively for all kind combinations up to nmax."""
+def flat_configs(nmax):
+    """every kind combination with every flat EUPS_LOCK_PID map (a non-root points to a root), up to nmax processes"""
     import itertools
     cfgs = []
     for n in range(2, nmax + 1):
-        for ks in itertools.combinations_with_replacement("ES", n):
-            cfgs.append([P(k) for k in ks])
-            if n <= 3:
-                cfgs.append([P(k, tries=1) for k in ks])
-        if n <= 3:
-            for ks in itertools.product("ES", repeat=n):
-                cfgs.append([P(k, lp=(0 if i == 1 else None)) for i, k in enumerate(ks)])
-                if n == 3:
-                    cfgs.append([P(k, lp=(0 if i >= 1 else None)) for i, k in enumerate(ks)])
-    reqs = [{"m": "c09", "op": "explore", "monitors": True, "schedules": False, "max": 3000000,
-             "procs": [{"kind": p["kind"], "lp": p["lp"], "tries": p["tries"]} for p in procs]} for procs in cfgs]
-    answers = ctx.lean.ask_many(reqs)
-    states = viol = 0
+        for ks in itertools.product("ES", repeat=n):
+            for lps in itertools.product([None] + list(range(min(n, 2))), repeat=n):
+                if any(l is not None and (l == i or lps[l] is not None) for i, l in enumerate(lps)):
+                    continue
+                if n == 4 and sum(l is not None for l in lps) > 2:
+                    continue
+                cfgs.append([P(k, lp=l, tries=(1 if (n < 4 and i == 0) else 0)) for i, (k, l) in enumerate(zip(ks, lps))])
+    return cfgs
+
+
+def classification_support(ctx, nmax):
+    """Exploration support (model only, not proof), two sanity checks of what the theorems say against the driver's own
+    executable predicates:
+    (1) exploring only steps that are none of the three races (driver op `racefree`) reaches no state violating Mutex
+        and none violating a clause of the invariant behind C09_classification — all flat configurations up to nmax;
+    (2) no quiescent state has residue (C09_no_residue); and, as information, how many violating states are explained
+        by a race that hit the violating pair itself (the finer attribution the class predicates try first)."""
+    import itertools
+    cfgs = flat_configs(nmax)
+    answers = ctx.lean.ask_many([{"m": "c09", "op": "racefree", "max": 3000000,
+                                  "procs": [{"kind": p["kind"], "lp": p["lp"], "tries": p["tries"]} for p in procs]}
+                                 for procs in cfgs])
+    states = 0
     for procs, a in zip(cfgs, answers):
         if "bad-op" in a:
-            raise common.InfraError("exploration failed: %r" % a)
+            raise common.InfraError("race-free exploration failed: %r" % a)
         states += a["states"]
+        if a["violated"]:
+            raise common.InfraError("race-free exploration of %r: %r does not hold in every reachable state — the driver's "
+                                    "race predicates and the theorem C09_classification disagree" % (procs, a["violated"]))
+    ctx.hist("racefree_states", states)
+    cfgs2 = []
+    for n in range(2, min(nmax, 3) + 1):
+        for ks in itertools.combinations_with_replacement("ES", n):
+            cfgs2.append([P(k) for k in ks])
+            cfgs2.append([P(k, tries=1) for k in ks])
+        for ks in itertools.product("ES", repeat=n):
+            cfgs2.append([P(k, lp=(0 if i == 1 else None)) for i, k in enumerate(ks)])
+            if n == 3:
+                cfgs2.append([P(k, lp=(0 if i >= 1 else None)) for i, k in enumerate(ks)])
+    if nmax >= 4:
+        for ks in itertools.combinations_with_replacement("ES", 4):
+            cfgs2.append([P(k) for k in ks])
+    answers = ctx.lean.ask_many([{"m": "c09", "op": "explore", "monitors": True, "schedules": False, "max": 3000000,
+                                  "procs": [{"kind": p["kind"], "lp": p["lp"], "tries": p["tries"]} for p in procs]}
+                                 for procs in cfgs2])
+    mstates = viol = elsewhere = 0
+    for procs, a in zip(cfgs2, answers):
+        if "bad-op" in a:
+            raise common.InfraError("exploration failed: %r" % a)
+        mstates += a["states"]
         viol += a["violating"]
+        elsewhere += a["unexplained"]
         if not a["full"]:
-            ctx.note("classification: state bound hit for %r" % (procs,))
-        if a["unexplained"] or a["residue"]:
-            raise common.InfraError("model exploration: %d violating states not explained by D12a/b/c, %d quiescent states "
-                                    "with residue, configuration %r, e.g. schedule %r" % (
-                                        a["unexplained"], a["residue"], procs, a["unexplained_example"] or a["residue_example"]))
-    ctx.note("exploration support (model only, not proof): %d configurations of up to %d processes, %d monitored states, "
-             "%d violate Mutex, every one explained by the scan-before-create / stale-rmdir / trepidation monitors; "
-             "no quiescent state with residue" % (len(cfgs), nmax, states, viol))
-    ctx.hist("classification_states", states)
+            ctx.note("exploration: state bound hit for %r" % (procs,))
+        if a["residue"]:
+            raise common.InfraError("model exploration: %d quiescent states with residue, configuration %r, e.g. schedule %r" % (
+                a["residue"], procs, a["residue_example"]))
+    ctx.note("exploration support (model only, not proof): race-free exploration of %d flat configurations of up to %d processes, "
+             "%d states, none violates Mutex or the invariant of C09_classification; %d further configurations with race "
+             "monitors, %d states, %d violate Mutex, %d of them only through a race that hit a process outside the violating "
+             "pair; no quiescent state with residue" % (len(cfgs), nmax, states, len(cfgs2), mstates, viol, elsewhere))
+    ctx.hist("classification_states", mstates)
 
 
 def run(ctx):
@@ -544,7 +600,7 @@ def run(ctx):
 
 
 def replay(ctx, rp):
-    c = rp["input"]
+    c = rp.get("input") or rp          # a replay file, or a corpus witness
     case = {"procs": c["procs"], "sched": c["sched"], "base": c.get("base", "default"), "drain": True}
     if "ndirs" in c:
         case["ndirs"] = c["ndirs"]
